@@ -2,6 +2,7 @@ package main
 
 import (
 	"fmt"
+	"sort"
 
 	"github.com/Yiling-J/theine-go/internal"
 	"verifsim/simrt"
@@ -166,6 +167,14 @@ func genC08Store(g *gen, tier string) *Scenario {
 		sc.Sim.AtomicFiles = []string{"buffer.go"}
 	}
 	hot := g.rng(1, 2)
+	if g.pct(40) {
+		hot = g.rng(4, 12) // few hits per key: the frequency counters stay below their ceiling
+	}
+	if g.pct(30) {
+		sc.Cache.Pool = true
+		sc.Sim.PoolReuse = pick(g, 50, 100)
+		sc.Family = "store-stripe+pool"
+	}
 	nc := g.rng(2, 4)
 	if tier == "thorough" {
 		nc = g.rng(2, 6)
@@ -224,6 +233,10 @@ func checkC08(rd *RunData) []Violation {
 	if len(vs) > 0 {
 		return vs
 	}
+	vs = append(vs, c08Conservation(rd, after)...)
+	if len(vs) > 0 {
+		return vs
+	}
 	// every one of the epilogue reads must have hit for the delivery check to apply
 	hits := 0
 	for _, r := range rd.Recs {
@@ -273,6 +286,79 @@ func checkC08(rd *RunData) []Violation {
 	}
 	if !ok {
 		vs = append(vs, Violation{"C08/hits-without-effect", fmt.Sprintf("%d hits on key 0 were delivered to the policy (stripe heads advanced by %d) but the key's standing did not improve: it is at %q", hits, advanced, where)})
+	}
+	return vs
+}
+
+// c08Conservation: every event the buffer delivers corresponds to one real hit, once.
+//
+// (a) the frequency counters: a counter only moves when the policy is told about an insert or
+// a hit of a key that maps to it (it saturates, and ageing halves it, which only lowers it).
+// So its value is at most the number of such calls in the history, summed over the keys that
+// share the counter (positions taken from the real sketch, so collisions are accounted
+// exactly). A batch applied twice, or an event invented, pushes a counter above that bound.
+// (b) an entry reaches the protected region only through a delivered hit on it: a key that no
+// Get ever hit must not be there.
+//
+//go:norace
+func c08Conservation(rd *RunData, after *Snap) []Violation {
+	if simrt.RaceEnabled || rd.Store == nil {
+		return nil
+	}
+	var vs []Violation
+	events := map[int]int{}
+	hits := map[int]int{}
+	for _, r := range rd.Recs {
+		switch r.Op.Kind {
+		case "set":
+			events[r.Op.Key]++
+		case "get":
+			if r.Ok || r.Open {
+				events[r.Op.Key]++
+				hits[r.Op.Key]++
+			}
+		}
+	}
+	for _, l := range rd.Loader {
+		events[l.Key]++
+	}
+	bound := map[uint32]int{}
+	type kc struct {
+		pos [4]uint32
+		val [4]uint
+	}
+	kcs := map[int]kc{}
+	keys := make([]int, 0, len(events))
+	for k := range events {
+		keys = append(keys, k)
+	}
+	sort.Ints(keys)
+	for _, k := range keys {
+		p, v := internal.SketchCounters(rd.Store, k)
+		kcs[k] = kc{p, v}
+		for _, c := range p {
+			bound[c] += events[k]
+		}
+	}
+	for _, k := range keys {
+		x := kcs[k]
+		for i, c := range x.pos {
+			if int(x.val[i]) > bound[c] {
+				vs = append(vs, Violation{"C08/event-not-a-real-hit/frequency-counter," + rd.Sc.Family, fmt.Sprintf("frequency counter %d (row %d of key %d) stands at %d, but the whole history contains only %d inserts and hits of keys that map to it (key %d: %d sets/loads/hits): a batch was delivered more than once or an event was invented", c, i, k, x.val[i], bound[c], k, events[k])})
+				return vs
+			}
+		}
+		probe("c08.counter-within-history")
+	}
+	for _, rg := range after.Regions {
+		if rg.Name != "protected" {
+			continue
+		}
+		for _, e := range rg.Entries {
+			if hits[e.Key] == 0 {
+				vs = append(vs, Violation{"C08/event-not-a-real-hit/promoted-without-hit," + rd.Sc.Family, fmt.Sprintf("key %d is in the protected region although no Get ever hit it: a hit was credited to the wrong entry", e.Key)})
+			}
+		}
 	}
 	return vs
 }
